@@ -103,6 +103,10 @@ func runFilterConc(cfg Cfg) {
 		}
 		logs := make([][]wop, W)
 		perWriter := cfg.N(150, 400)
+		if run == runs-1 {
+			perWriter = cfg.N(9000, 30000) // one long life: thousands of removals in maps mode
+			s.Count("run.long-life")
+		}
 		toggle := run%2 == 0
 		for w := 0; w < W; w++ {
 			wr := rng.Fork()
@@ -144,6 +148,24 @@ func runFilterConc(cfg Cfg) {
 						for spin := 0; emptied.Load() < int32(W) && spin < 200000; spin++ {
 							runtime.Gosched()
 						}
+					}
+					if w == 1%W && i%40 == 9 {
+						// a dual-stack route feed: IPv6 ranges are not for this filter - refused, and nothing changes
+						v6 := Pick(wr, []*net.IPNet{
+							{IP: net.ParseIP("::"), Mask: net.CIDRMask(0, 128)},
+							{IP: net.ParseIP("2001:db8::"), Mask: net.CIDRMask(32, 128)},
+							{IP: net.ParseIP("::ffff:10.0.0.0"), Mask: net.CIDRMask(104, 128)},
+						})
+						var err error
+						if i%80 == 9 {
+							err = f.Add(v6)
+						} else {
+							err = f.Remove(v6)
+						}
+						if err != netutil.ErrInvalidIPv4CIDR {
+							s.Violate("invalid-cidr-accepted", fmt.Sprintf("writer %d: Add/Remove(%v) = %v, want ErrInvalidIPv4CIDR", w, v6, err), map[string]any{"run": run, "cidr": v6.String()})
+						}
+						continue
 					}
 					if i%3 == 1 {
 						// hot address of this writer's block: toggle a range covering it and check, as the only
